@@ -142,7 +142,7 @@ def run(ctx):
     # "nothing for any other string", at scale: millions of near-miss strings (registry names with numeric / alphabetic tails,
     # one changed character, a changed prefix) generated inside the harness; none may resolve (a lookup that trusts a short
     # hash or a prefix match would let some through)
-    per = 40000000 if ctx.thorough else 3000000
+    per = 20000000 if ctx.thorough else 3000000
     bl = ['cs_name_bulk %d %d' % (1000003 * (k + 1) + ctx.seed, per) for k in range(core.NPROC)]
     for ln, a in zip(bl, core.run_lines(exe, bl, chunk=1)):
         ctx.count('names_bulk', 'none-resolve' if a == 'ok (Bulk %d 0)' % per else 'RESOLVED', per)
@@ -157,7 +157,7 @@ def run(ctx):
             ctx.violation('suite 0x%04x %s: %s disagrees with the registry columns %s' % (f[0], f[1], why, f[2:]), {'row': list(f), 'rule': why}, key='tokens:%04x' % f[0])
     common.lean_failure_violation(ctx, ok)
     return ctx.finish(LEVEL,
-        rule='exhaustive: all 65536 ids through from_id / TryFrom<u16> / TryFrom<TlsCipherSuiteID> / get_ciphersuite and the full row (10 columns + 3 derived sizes) against the registry file of /repo; every registry name and 8+ perturbations per name through both name routes, plus 48M (thorough: 640M) generated near-miss strings; pinned-vs-current file rows; name-token agreement rules on every row; distinct = distinct parameter tuples',
+        rule='exhaustive: all 65536 ids through from_id / TryFrom<u16> / TryFrom<TlsCipherSuiteID> / get_ciphersuite and the full row (10 columns + 3 derived sizes) against the registry file of /repo; every registry name and 8+ perturbations per name through both name routes, plus 48M (thorough: 320M) generated near-miss strings; pinned-vs-current file rows; name-token agreement rules on every row; distinct = distinct parameter tuples',
         checker_cmd='cd /verif/lean && lake build TlsModel.Props.C12 TlsModel.Gen.CiphersCheck TlsModel.Gen.CipherNamesCheck',
         assumptions=['phf lookup = association lookup on the generated entries (tied by the exhaustive id sweep)',
                      'name-token agreement: the IANA naming-scheme rule is a Lean predicate (CipherNames.lean) checked by the kernel on every row (Gen/CipherNamesCheck.lean); the same rule in Python names the failing row for the replay'],
